@@ -276,57 +276,63 @@ def run(res):
             continue
         if "template-is" in j.get("features", []) or "include" in j.get("features", []):
             continue   # sub-templates read their own data object: paths are relative to it, not to the root data
-        d0 = j["datas"][0]
-        for e in run0["logs"][0]:
-            cands = []   # (what, path array (decoded), value delivered, kind)
-            if e[0] == "r":
-                if len(e) > 3 and isinstance(e[3], dict) and "$a" in e[3]:
-                    cands.append(("model", dec_val(e[3]), e[2], e[1]))
-                if len(e) > 4 and isinstance(e[4], dict) and "$a" in e[4]:
-                    cands.append(("general", dec_val(e[4]), e[2], e[1]))
-            elif e[0] in ("v", "p", "l") and isinstance(e[-1], dict) and "$a" in e[-1]:
-                cands.append(("general", dec_val(e[-1]), e[2], e[1]))
-            elif e[0] == "F" and isinstance(e[3], dict) and "$a" in e[3]:
-                cands.append(("general", dec_val(e[3]), e[1], "wx:for"))
-            for (kind, path, value, name) in cands:
-                n_paths += 1
-                if kind == "model":
-                    data_path = path
-                else:
-                    if not path:
-                        continue
-                    if path[0] == 0:
-                        data_path = path[1:]
-                    elif path[0] in (1, 2):
-                        kinds["script"] = kinds.get("script", 0) + 1
-                        need = 2 if path[0] == 1 else 3
-                        if len(path) < need or not all(isinstance(x, (str, int)) for x in path[1:]):
-                            found += 1
-                            res.violation("script l-value path has a wrong shape: %r" % (path,), {"src": j["src"], "path": path})
-                        continue
-                    else:
-                        found += 1
-                        res.violation("general l-value path does not start with 0/1/2: %r" % (path,), {"src": j["src"], "path": path})
-                        continue
-                kinds[kind] = kinds.get(kind, 0) + 1
-                got = get_path(d0, data_path)
-                if isinstance(got, dict) and "$unsupported" in got:
-                    continue
-                if json.dumps(_numnorm(got), sort_keys=True) != json.dumps(_numnorm(value), sort_keys=True):
-                    # for-loop items over non-arrays (objects / strings / numbers) are addressed by key: allow object keys
-                    found += 1
-                    if found <= 6:
-                        res.violation("the %s path %r emitted for %r does not address the value the expression read: "
-                                      "data at the path = %s, delivered value = %s" % (
-                                          kind, path, name, json.dumps(got)[:120], json.dumps(value)[:120]),
-                                      {"src": j["src"], "data": d0, "path": path, "channel": e[0], "name": name})
-                    continue
-                # put: write a sentinel, re-create, expect the sentinel to be delivered on the same channel/name
-                d1 = set_path(d0, data_path, SENTINEL)
-                if d1 is not None and len(put_jobs) < (4000 if res.tier == "thorough" else 600):
-                    put_jobs.append({"op": "run", "id": "p", "bundle": j["bundle"], "path": j["path"], "slotValues": j.get("slotValues"),
-                                     "log": True, "steps": [{"create": d1}]})
-                    put_meta.append((j, e[0], name, path, kind, d1))
+        # the creation log and, for the designed families, the log of every update step (paths are re-emitted by the
+        # setters that run again) — each against the data of that moment
+        steps_logs = [(j["datas"][0], run0["logs"][0], True)]
+        if any(str(f).startswith("matrix") for f in j.get("features", [])):
+            for k in range(1, min(len(run0["logs"]), len(j["datas"]))):
+                steps_logs.append((j["datas"][k], run0["logs"][k], False))
+        for (d0, step_log, is_creation) in steps_logs:
+          for e in step_log:
+              cands = []   # (what, path array (decoded), value delivered, kind)
+              if e[0] == "r":
+                  if len(e) > 3 and isinstance(e[3], dict) and "$a" in e[3]:
+                      cands.append(("model", dec_val(e[3]), e[2], e[1]))
+                  if len(e) > 4 and isinstance(e[4], dict) and "$a" in e[4]:
+                      cands.append(("general", dec_val(e[4]), e[2], e[1]))
+              elif e[0] in ("v", "p", "l") and isinstance(e[-1], dict) and "$a" in e[-1]:
+                  cands.append(("general", dec_val(e[-1]), e[2], e[1]))
+              elif e[0] == "F" and isinstance(e[3], dict) and "$a" in e[3]:
+                  cands.append(("general", dec_val(e[3]), e[1], "wx:for"))
+              for (kind, path, value, name) in cands:
+                  n_paths += 1
+                  if kind == "model":
+                      data_path = path
+                  else:
+                      if not path:
+                          continue
+                      if path[0] == 0:
+                          data_path = path[1:]
+                      elif path[0] in (1, 2):
+                          kinds["script"] = kinds.get("script", 0) + 1
+                          need = 2 if path[0] == 1 else 3
+                          if len(path) < need or not all(isinstance(x, (str, int)) for x in path[1:]):
+                              found += 1
+                              res.violation("script l-value path has a wrong shape: %r" % (path,), {"src": j["src"], "path": path})
+                          continue
+                      else:
+                          found += 1
+                          res.violation("general l-value path does not start with 0/1/2: %r" % (path,), {"src": j["src"], "path": path})
+                          continue
+                  kinds[kind] = kinds.get(kind, 0) + 1
+                  got = get_path(d0, data_path)
+                  if isinstance(got, dict) and "$unsupported" in got:
+                      continue
+                  if json.dumps(_numnorm(got), sort_keys=True) != json.dumps(_numnorm(value), sort_keys=True):
+                      # for-loop items over non-arrays (objects / strings / numbers) are addressed by key: allow object keys
+                      found += 1
+                      if found <= 6:
+                          res.violation("the %s path %r emitted for %r does not address the value the expression read: "
+                                        "data at the path = %s, delivered value = %s" % (
+                                            kind, path, name, json.dumps(got)[:120], json.dumps(value)[:120]),
+                                        {"src": j["src"], "data": d0, "path": path, "channel": e[0], "name": name})
+                      continue
+                  # put: write a sentinel, re-create, expect the sentinel to be delivered on the same channel/name
+                  d1 = set_path(d0, data_path, SENTINEL) if is_creation else None
+                  if d1 is not None and len(put_jobs) < (4000 if res.tier == "thorough" else 600):
+                      put_jobs.append({"op": "run", "id": "p", "bundle": j["bundle"], "path": j["path"], "slotValues": j.get("slotValues"),
+                                       "log": True, "steps": [{"create": d1}]})
+                      put_meta.append((j, e[0], name, path, kind, d1))
     out = node_jobs(put_jobs, shards=12)
     n_put = n_put_ok = n_put_unobservable = 0
     for (j, ch, name, path, kind, d1), o in zip(put_meta, out):
